@@ -10,6 +10,7 @@ Section EnvInv.
   Variable W : Type.
   Variable wsrc : nat -> Z.
   Variable exec : A -> W -> Z -> W * list (cmd A).
+  Variable wfail : W -> bool.
 
   Notation event := (event A).
   Notation env := (env A).
@@ -332,7 +333,7 @@ Section EnvInv.
   Proof. intros [S F P N R D]. split; assumption. Qed.
 
   Notation state := (W * env)%type.
-  Notation step := (step wsrc exec).
+  Notation step := (step wsrc exec wfail).
 
   Lemma step_inv s r : Inv (snd s) -> step s = Some r -> Inv (snd (res_val r)).
   Proof.
@@ -344,7 +345,7 @@ Section EnvInv.
     - destruct (e_act e) as [a|].
       + destruct (exec a w (e_time e)) as [w' cs].
         pose proof (apply_cmds_inv cs _ I1) as I2.
-        destruct (apply_cmds wsrc _ cs); injection H as <-; exact I2.
+        destruct (apply_cmds wsrc _ cs); [destruct (wfail w')|]; injection H as <-; exact I2.
       + injection H as <-. cbn. apply set_terminated_inv, I1.
   Qed.
 
@@ -352,7 +353,7 @@ Section EnvInv.
   Proof.
     destruct s as [w en]. unfold Env.step. cbn [snd]. destruct (queue en) as [|e q]; [reflexivity|].
     destruct (e_cancelled e); [discriminate|]. destruct (e_act e) as [a|]; [|discriminate].
-    destruct (exec a w (e_time e)) as [w' cs]. destruct (apply_cmds wsrc _ cs); discriminate.
+    destruct (exec a w (e_time e)) as [w' cs]. destruct (apply_cmds wsrc _ cs); [destruct (wfail w')|]; discriminate.
   Qed.
 
   (** * Reachability: any interleaving of steps and external calls.  The
@@ -433,7 +434,7 @@ Section EnvInv.
     destruct (e_act e) as [a|]; [|injection H as <-; reflexivity].
     destruct (exec a w (e_time e)) as [w' cs].
     match type of H with context[apply_cmds wsrc ?en1 cs] => pose proof (apply_cmds_now cs en1) as N end.
-    destruct (apply_cmds wsrc _ cs); injection H as <-; exact N.
+    destruct (apply_cmds wsrc _ cs); [destruct (wfail w')|]; injection H as <-; exact N.
   Qed.
 
   (** ... and never decreases. *)
